@@ -139,6 +139,30 @@ fn probes(thorough: bool) -> Vec<(&'static str, Stmt)> {
                 for e in int_domain(n) {
                     out.push(("S3_sequence_slice", probe(index(mk(), range_of(i, e)))));
                 }
+                // a slice of a vec is a sequence of its own: changing either afterwards leaves the other alone
+                if !tuple {
+                    for e in int_domain(n) {
+                        out.push((
+                            "S3_slice_is_a_fresh_sequence",
+                            st(StmtKind::Block(vec![
+                                var_stmt("seq", mk()),
+                                var_stmt("part", Expr::Nil),
+                                st(StmtKind::Try(vec![expr_stmt(assign("part", index(var("seq"), range_of(i, e))))], Some(("err".into(), vec![print_stmt(call(var("type"), vec![var("err")]))])), None)),
+                                st(StmtKind::If(
+                                    bin(BinOp::Ne, var("part"), Expr::Nil),
+                                    vec![
+                                        expr_stmt(invoke(var("part"), "push", vec![s("pushed on the slice")])),
+                                        expr_stmt(invoke(var("seq"), "push", vec![s("pushed on the source")])),
+                                        st(StmtKind::Try(vec![expr_stmt(Expr::SetIndex(Box::new(var("seq")), Box::new(num(0.0)), Box::new(s("set in the source"))))], Some(("err".into(), vec![])), None)),
+                                        st(StmtKind::Try(vec![expr_stmt(Expr::SetIndex(Box::new(var("part")), Box::new(num(0.0)), Box::new(s("set in the slice"))))], Some(("err".into(), vec![])), None)),
+                                        print_stmt(Expr::TupleLit(vec![var("seq"), var("part")])),
+                                    ],
+                                    None,
+                                )),
+                            ])),
+                        ));
+                    }
+                }
                 // set item (vec only; on a tuple a TypeError)
                 out.push((
                     "S3_set_item",
@@ -261,12 +285,28 @@ pub fn run(ctx: &Ctx) -> Report {
     if !cur.is_empty() {
         cases.push(Case::new("probe_batch", cur));
     }
-    let hooks = Hooks { attribute: &|_c, _m, _o, _mm| None, nontrivial: &|_c, m| m.out.len() >= 2, fuel: 5_000_000 };
+    // vacuity guard: a batch whose program ends early (an error escaping a probe) would silently skip the
+    // probes behind it - every batch has to run to its end in the model
+    let ended_early = std::sync::atomic::AtomicUsize::new(0);
+    let hooks = Hooks {
+        attribute: &|_c, _m, _o, _mm| None,
+        nontrivial: &|_c, m| {
+            if !matches!(m.outcome, crate::meval::Outcome::Ok) {
+                ended_early.fetch_add(1, std::sync::atomic::Ordering::Relaxed);
+            }
+            m.out.len() >= 2
+        },
+        fuel: 5_000_000,
+    };
     let stats = mcheck::run(ctx, cases.into_iter(), &hooks);
+    let early = ended_early.load(std::sync::atomic::Ordering::Relaxed);
+    if early > 0 {
+        crate::pool::machinery_failure(&format!("C13: {} probe batches end before their last probe in the model: probes behind that point are not checked", early));
+    }
     mcheck::fill_report(
         &mut report,
         &stats,
-        "every probe of: S1 string[i] for every string over a 1/2/3/4-byte alphabet up to 3/4 characters and every integer i in [-len-2, len+2] (every mid-character offset) plus fractional, NaN, +-inf, +-2^53, +-2^63 and non-number indices; S2 every slice b..e over the same integer domain; S3 the same for vecs and tuples of 0-4 elements including item assignment; S4 every string method with every needle of 1-2 characters and every start; S5 from_ascii/from_utf8 over all byte vectors up to length 2/3 from boundary bytes, all lead/continuation boundary sequences, from_code_points over boundary code points; S6 escape forms. 100 probes per program, one printed line each, compared with M-str byte for byte (error class on failure).",
+        "every probe of: S1 string[i] for every string over a 1/2/3/4-byte alphabet up to 3/4 characters and every integer i in [-len-2, len+2] (every mid-character offset) plus fractional, NaN, +-inf, +-2^53, +-2^63 and non-number indices; S2 every slice b..e over the same integer domain; S3 the same for vecs and tuples of 0-4 elements including item assignment, and for every vec slice that it is a sequence of its own (pushes and item assignments on either side afterwards leave the other alone); S4 every string method with every needle of 1-2 characters and every start; S5 from_ascii/from_utf8 over all byte vectors up to length 2/3 from boundary bytes, all lead/continuation boundary sequences, from_code_points over boundary code points; S6 escape forms. 100 probes per program, one printed line each, compared with M-str byte for byte (error class on failure).",
         json!({"string_chars": if thorough { 4 } else { 3 }, "byte_vector_length": if thorough { 3 } else { 2 }}),
     );
     // the honest counts: probes, not programs
